@@ -73,7 +73,7 @@ class Class:
 
 
 class Module:
-    __slots__ = ("name", "path", "relpath", "tree", "source", "funcs", "classes", "imports", "renamed_locals",
+    __slots__ = ("name", "path", "relpath", "tree", "source", "funcs", "classes", "imports", "renamed_locals", "same_as_reference",
                  "digest", "lines")
 
     def __init__(self, name, path, relpath, source):
@@ -265,7 +265,7 @@ def canonicalise(tree: ast.AST) -> ast.AST:
     return tree
 
 
-def _finish_modules(modules: dict) -> None:
+def _finish_modules(modules: dict) -> int:
     """Normalisation of all parsed modules (DESIGN.md 1.4): private-function names back to the reference
     names (package-wide, because callers live in other modules), then per module the function locals,
     then the canonical spellings."""
@@ -294,9 +294,14 @@ def _finish_modules(modules: dict) -> None:
         if mapping:
             for m in modules.values():
                 alpha.apply_name_renames(m.tree, mapping)
+        n_private = len(mapping)
+    else:
+        n_private = 0
     for m in modules.values():
+        m.same_as_reference = bool(ref.get(m.relpath, {}).get("__digest__") == m.digest) if ref else False
         m.renamed_locals = _alpha_normalise(m.tree, m.relpath, m.digest)  # before canonicalise: operand order depends on names
         m.tree = canonicalise(m.tree)
+    return n_private
 
 
 def _localnames() -> dict:
@@ -339,7 +344,7 @@ class Program:
             for modname, src in sources.items():
                 rel = modname.replace(".", "/") + ".py"
                 self.modules[modname] = Module(modname, rel, rel, src)
-            _finish_modules(self.modules)
+            self.renamed_private_functions = _finish_modules(self.modules)
             for m in self.modules.values():
                 self._index_module(m)
         else:
@@ -375,7 +380,7 @@ class Program:
                 except SyntaxError as e:
                     raise AnalysisError(f"cannot parse {rel}: {e}")
                 self.modules[modname] = m
-        _finish_modules(self.modules)
+        self.renamed_private_functions = _finish_modules(self.modules)
         for m in self.modules.values():
             self._index_module(m)
 
